@@ -130,6 +130,10 @@ def main(ctx):
     owner = {}
     nerr = 0
     for r in results + sres:
+        if r.get("error") and "Chebyshev input coordinates must be normalized" in r["error"]:
+            nerr += 1       # documented precondition of the Chebyshev shape, not a property violation
+            ctx.skip("ray left the Chebyshev normalisation square (documented ValueError)")
+            continue
         if r.get("error"):
             nerr += 1
             # a lens the generator built from valid arguments that cannot be built/traced
@@ -155,6 +159,9 @@ def main(ctx):
         key = e["shape"] + ("/mirror" if e["refl"] else "") + ("/tilt" if e["rot"][1]["s"] != 0 or e["rot"][3]["s"] != 0 else "")
         kinds[key] = kinds.get(key, 0) + 1
         for clause in verdicts[e["id"]]:
+            if clause.startswith("~"):      # a note of the spec, not a failing clause
+                ctx.skip(clause[1:] + " (near-sheet intersection behind the ray; not a valid sequential step)")
+                continue
             cheb = any(t["t"] == "ch" and (t["sx"] != 0 or t["sy"] != 0) for t in e["terms"])
             ctx.report(clause, {"shape": e["shape"], "refl": e["refl"], "chebyshev_normalised": cheb},
                        "surface %d of %s: clause %s fails" % (e["k"], owner[e["id"]], clause),
